@@ -449,6 +449,12 @@ theorem disposalRespected_of_clean (hs : SReachR M R s) (hv : ∀ v ∈ s.g.ph.v
   have := hno _ (chronAt_mem hp)
   cases u <;> simp [isDisposeOf] at this hu
 
+/-- all three at once, from the hypothesis the safety theorems of the operators provide (`BasicSafe`, `Safe`) -/
+theorem readable_of_noViols (hs : SReachR M R s) (hv : s.g.ph.viols = []) (k : Nat) :
+    GreetFirstOnce k s.tr ∧ TerminalFinal k s.tr ∧ DisposalRespected k s.tr := by
+  refine ⟨greetFirstOnce_of_clean hs ?_ k, terminalFinal_of_clean hs ?_ k, disposalRespected_of_clean hs ?_ k⟩ <;>
+    (rw [hv]; intro v hm; cases hm)
+
 /-! ## `TerminalFinal` needs C01 and C03: machine-checked counterexamples to the statement with "no prop-2 violation" alone
 
 The monitor files a delivery under the property of the phase the sink is in.  A terminal sent to a sink that is not greeted
@@ -513,5 +519,6 @@ end Cb
 #print axioms Cb.greetFirstOnce_of_clean
 #print axioms Cb.terminalFinal_of_clean
 #print axioms Cb.disposalRespected_of_clean
+#print axioms Cb.readable_of_noViols
 #print axioms Cb.terminalFinal_needs_C01
 #print axioms Cb.terminalFinal_needs_C03
